@@ -96,6 +96,7 @@ package quickfix
 
 //@ func (f *FIXString) Read [C09,C14]
 //@   ensures @ok err == nil
+//@   ensures @str *f == string(bytes)
 //@   ensures @value len(*f) == len(bytes) && (forall i :: 0 <= i && i < len(bytes) ==> (*f)[i] == bytes[i])
 //@   modifies f
 
@@ -179,6 +180,7 @@ package quickfix
 //@ lemma cntTag_nonneg [C10]: induction n: forall n int, a int, p int, t Tag :: 0 <= cntTag(a, p, n, t) && cntTag(a, p, n, t) <= (n < 0 ? 0 : n)
 
 //@ func (m *FieldMap) initWithOrdering [C10]
+//@   typedheap
 //@   requires m.tags == nil
 //@   ensures @wf fmwf(m)
 //@   ensures @empty forall t Tag :: !has(m.tagLookup, t)
@@ -187,14 +189,17 @@ package quickfix
 
 //@ func (m *FieldMap) getOrCreate [C09,C10]
 //@   requires fmwf(m)
+//@   modifies m.tags, m.tags[*], m.tagLookup[*], fresh H.quickfix.TagValue.*, fresh E.quickfix.Tag
 //@   ensures @present has(m.tagLookup, tag)
 //@   ensures @result len(result) == 1 && result == m.tagLookup[tag][:1]
 //@   ensures @len len(m.tagLookup[tag]) >= 1 && (!old(has(m.tagLookup, tag)) ==> len(m.tagLookup[tag]) == 1) && (old(has(m.tagLookup, tag)) ==> m.tagLookup[tag] == old(m.tagLookup[tag]))
+//@   ensures @newfresh !old(has(m.tagLookup, tag)) ==> fresh(result)
 //@   ensures @others forall t Tag :: t != tag ==> (has(m.tagLookup, t) <==> old(has(m.tagLookup, t))) && m.tagLookup[t] == old(m.tagLookup[t])
 //@   ensures @order fmorder(m)
 //@   ensures @same m.tagLookup == old(m.tagLookup) && m.rwLock == old(m.rwLock) && m.compare == old(m.compare)
 
 //@ func (m *FieldMap) init [C10]
+//@   typedheap
 //@   requires m.tags == nil
 //@   ensures @wf fmwf(m)
 //@   ensures @empty forall t Tag :: !has(m.tagLookup, t)
@@ -212,8 +217,24 @@ package quickfix
 //@ spec onefield(m *FieldMap, tag Tag, value []byte) bool = has(m.tagLookup, tag) && len(m.tagLookup[tag]) >= 1 && m.tagLookup[tag][0].tag == tag && m.tagLookup[tag][0].value == value && tvwf(m.tagLookup[tag][0].bytes, tag, value, len(m.tagLookup[tag][0].bytes) - len(value) - 2)
 //@ spec otherssame(m *FieldMap, tag Tag) bool = forall t Tag :: t != tag ==> (has(m.tagLookup, t) <==> old(has(m.tagLookup, t))) && m.tagLookup[t] == old(m.tagLookup[t])
 
+// Assumed of every implementation of the field writer/reader interfaces (the application's field types):
+// producing the value does not modify existing objects.
+//@ iface FieldValueWriter.Write(recv)
+//@   pure
+//@ iface FieldWriter.Tag(recv)
+//@   pure
+//@ iface FieldGroupWriter.Tag(recv)
+//@   pure
+//@ iface FieldGroupWriter.Write(recv)
+//@   pure
+//@ iface FieldGroupReader.Tag(recv)
+//@   pure
+//@ iface Field.Tag(recv)
+//@   pure
+
 //@ func (m *FieldMap) SetBytes [C10]
 //@   requires fmwf(m)
+//@   modifies m.tags, m.tags[*], m.tagLookup[*], m.tagLookup[tag][*], fresh E.uint8, fresh H.quickfix.TagValue.*, fresh E.quickfix.Tag
 //@   ensures @set onefield(m, tag, value)
 //@   ensures @single (!old(has(m.tagLookup, tag)) || old(len(m.tagLookup[tag])) == 1) ==> len(m.tagLookup[tag]) == 1
 //@   ensures @others otherssame(m, tag)
@@ -232,6 +253,7 @@ package quickfix
 //@   ensures @vals m.tagLookup != nil && m.rwLock != nil && fmvals(m)
 //@   ensures @absent len(m.tags) == old(len(m.tags)) ==> tagcount(m, tag) == 0 && (forall t Tag :: tagcount(m, t) == old(tagcount(m, t)))
 //@   ensures @orderA len(m.tags) == old(len(m.tags)) ==> fmorder(m)
+//@   ensures @countB len(m.tags) != old(len(m.tags)) ==> (forall t Tag :: tagcount(m, t) == old(tagcount(m, t)) - (t == tag ? 1 : 0))
 //@   ensures @orderB len(m.tags) != old(len(m.tags)) ==> fmorder(m)
 //@   ensures @wf fmwf(m)
 //@   loop 1 invariant @notyet forall q :: off(m.tags) <= q && q <= off(m.tags) + $i ==> cell(Tag, arr(m.tags), q) != tag
@@ -252,3 +274,187 @@ package quickfix
 //@   ensures @wf fmwf(m)
 //@   loop 1 invariant @deleted forall k Tag :: seen(k) ==> !has(m.tagLookup, k)
 //@   loop 1 invariant @tags len(m.tags) == 0 && m.tagLookup == old(m.tagLookup) && m.rwLock == old(m.rwLock)
+
+// ---- errors.go: reject values ----------------------------------------------------------------
+//@ spec ismre(e MessageRejectError) bool = e is messageRejectError
+//@ spec rejreason(e MessageRejectError) mathint = unbox(e, messageRejectError).rejectReason
+//@ spec rejhastag(e MessageRejectError) bool = unbox(e, messageRejectError).refTagID != nil
+//@ spec rejtag(e MessageRejectError) Tag = *unbox(e, messageRejectError).refTagID
+//@ spec rejbusiness(e MessageRejectError) bool = unbox(e, messageRejectError).isBusinessReject
+//@ spec mre(e MessageRejectError, reason int, tag Tag) bool = ismre(e) && rejreason(e) == reason && rejhastag(e) && rejtag(e) == tag && !rejbusiness(e)
+//@ spec mrenotag(e MessageRejectError, reason int) bool = ismre(e) && rejreason(e) == reason && !rejhastag(e)
+
+//@ func NewMessageRejectError [C06,C15]
+//@   ensures ismre(result) && rejreason(result) == rejectReason && unbox(result, messageRejectError).refTagID == refTagID && !rejbusiness(result)
+//@   modifies fresh H.quickfix.messageRejectError.*
+//@ func NewBusinessMessageRejectError [C06,C15]
+//@   ensures ismre(result) && rejreason(result) == rejectReason && unbox(result, messageRejectError).refTagID == refTagID && rejbusiness(result)
+//@   modifies fresh H.quickfix.messageRejectError.*
+
+//@ func IncorrectDataFormatForValue [C06,C15]
+//@   ensures mre(result, 6, tag)
+//@   modifies fresh H.quickfix.messageRejectError.*, fresh P.quickfix.Tag
+//@ func ValueIsIncorrect [C15]
+//@   ensures mre(result, 5, tag)
+//@   modifies fresh H.quickfix.messageRejectError.*, fresh P.quickfix.Tag
+//@ func ConditionallyRequiredFieldMissing [C06,C15]
+//@   ensures ismre(result) && rejreason(result) == 8 && rejhastag(result) && rejtag(result) == tag && rejbusiness(result)
+//@   modifies fresh H.quickfix.messageRejectError.*, fresh P.quickfix.Tag
+//@ func valueIsIncorrectNoTag [C15]
+//@   ensures mrenotag(result, 5) && !rejbusiness(result)
+//@   modifies fresh H.quickfix.messageRejectError.*
+//@ func InvalidMessageType [C15]
+//@   ensures mrenotag(result, 11) && !rejbusiness(result)
+//@   modifies fresh H.quickfix.messageRejectError.*
+//@ func UnsupportedMessageType [C15]
+//@   ensures mrenotag(result, 3) && rejbusiness(result)
+//@   modifies fresh H.quickfix.messageRejectError.*
+//@ func TagNotDefinedForThisMessageType [C15]
+//@   ensures mre(result, 2, tag)
+//@   modifies fresh H.quickfix.messageRejectError.*, fresh P.quickfix.Tag
+//@ func tagAppearsMoreThanOnce [C15]
+//@   ensures mre(result, 13, tag)
+//@   modifies fresh H.quickfix.messageRejectError.*, fresh P.quickfix.Tag
+//@ func RequiredTagMissing [C06,C15]
+//@   ensures mre(result, 1, tag)
+//@   modifies fresh H.quickfix.messageRejectError.*, fresh P.quickfix.Tag
+//@ func incorrectNumInGroupCountForRepeatingGroup [C15]
+//@   ensures mre(result, 16, tag)
+//@   modifies fresh H.quickfix.messageRejectError.*, fresh P.quickfix.Tag
+//@ func repeatingGroupFieldsOutOfOrder [C15]
+//@   ensures mre(result, 15, tag)
+//@   modifies fresh H.quickfix.messageRejectError.*, fresh P.quickfix.Tag
+//@ func tagSpecifiedOutOfRequiredOrder [C15]
+//@   ensures mre(result, 14, tag)
+//@   modifies fresh H.quickfix.messageRejectError.*, fresh P.quickfix.Tag
+//@ func TagSpecifiedWithoutAValue [C06,C15]
+//@   ensures mre(result, 4, tag)
+//@   modifies fresh H.quickfix.messageRejectError.*, fresh P.quickfix.Tag
+//@ func InvalidTagNumber [C15]
+//@   ensures mre(result, 0, tag)
+//@   modifies fresh H.quickfix.messageRejectError.*, fresh P.quickfix.Tag
+//@ func compIDProblem [C06]
+//@   ensures mrenotag(result, 9) && !rejbusiness(result)
+//@   modifies fresh H.quickfix.messageRejectError.*
+//@ func sendingTimeAccuracyProblem [C06]
+//@   ensures mrenotag(result, 10) && !rejbusiness(result)
+//@   modifies fresh H.quickfix.messageRejectError.*
+
+// ---- field_map.go: getters ------------------------------------------------------------------
+//@ func (m FieldMap) Has [C11]
+//@   pure
+//@   ensures result <==> has(m.tagLookup, tag)
+
+//@ func (m FieldMap) GetBytes [C09,C11]
+//@   requires fmvals(m)
+//@   ensures @found has(m.tagLookup, tag) ==> result1 == nil && result0 == m.tagLookup[tag][0].value
+//@   ensures @missing !has(m.tagLookup, tag) ==> result1 != nil && rejreason(result1) == 8 && rejtag(result1) == tag
+//@   modifies fresh H.quickfix.messageRejectError.*, fresh P.quickfix.Tag
+
+//@ func (m FieldMap) getBytesNoLock [C09,C11]
+//@   requires fmvals(m)
+//@   ensures @found has(m.tagLookup, tag) ==> result1 == nil && result0 == m.tagLookup[tag][0].value
+//@   ensures @missing !has(m.tagLookup, tag) ==> result1 != nil && rejreason(result1) == 8 && rejtag(result1) == tag
+//@   modifies fresh H.quickfix.messageRejectError.*, fresh P.quickfix.Tag
+
+//@ func (m FieldMap) GetInt [C09,C11]
+//@   requires fmvals(m)
+//@   ensures @ok (result1 == nil) <==> (has(m.tagLookup, tag) && isint(m.tagLookup[tag][0].value))
+//@   ensures @value result1 == nil ==> result0 == intval(m.tagLookup[tag][0].value)
+//@   ensures @missing !has(m.tagLookup, tag) ==> rejreason(result1) == 8
+//@   ensures @malformed has(m.tagLookup, tag) && !isint(m.tagLookup[tag][0].value) ==> mre(result1, 6, tag)
+
+//@ func (m FieldMap) getIntNoLock [C09,C11]
+//@   requires fmvals(m)
+//@   ensures @ok (result1 == nil) <==> (has(m.tagLookup, tag) && isint(m.tagLookup[tag][0].value))
+//@   ensures @value result1 == nil ==> result0 == intval(m.tagLookup[tag][0].value)
+//@   ensures @missing !has(m.tagLookup, tag) ==> rejreason(result1) == 8
+//@   ensures @malformed has(m.tagLookup, tag) && !isint(m.tagLookup[tag][0].value) ==> mre(result1, 6, tag)
+
+//@ func (m FieldMap) GetField [C09,C11]
+//@   inline
+//@   requires fmvals(m) && parser != nil
+//@   ensures @missing !old(has(m.tagLookup, tag)) ==> result != nil && rejreason(result) == 8
+//@   modifies *
+
+//@ func (m FieldMap) getFieldNoLock [C09,C11]
+//@   inline
+//@   requires fmvals(m) && parser != nil
+//@   ensures @missing !old(has(m.tagLookup, tag)) ==> result != nil && rejreason(result) == 8
+//@   modifies *
+
+//@ func (m FieldMap) GetBool [C09,C11]
+//@   requires fmvals(m)
+//@   ensures @ok (result1 == nil) <==> (has(m.tagLookup, tag) && len(m.tagLookup[tag][0].value) == 1 && (m.tagLookup[tag][0].value[0] == 89 || m.tagLookup[tag][0].value[0] == 78))
+//@   ensures @value result1 == nil ==> (result0 <==> m.tagLookup[tag][0].value[0] == 89)
+
+//@ func (m FieldMap) GetString [C09,C11]
+//@   requires fmvals(m)
+//@   ensures @ok (result1 == nil) <==> has(m.tagLookup, tag)
+//@   ensures @value result1 == nil ==> result0 == string(m.tagLookup[tag][0].value)
+
+//@ func (m FieldMap) getStringNoLock [C09,C11]
+//@   requires fmvals(m)
+//@   ensures @ok (result1 == nil) <==> has(m.tagLookup, tag)
+//@   ensures @value result1 == nil ==> result0 == string(m.tagLookup[tag][0].value)
+
+//@ func (m FieldMap) GetTime [C09,C11]
+//@   requires fmvals(m)
+//@   ensures @missing !has(m.tagLookup, tag) ==> err != nil
+
+//@ func (m FieldMap) GetGroup [C09,C13]
+//@   requires fmvals(m) && parser != nil
+//@   modifies *
+
+//@ func fieldTag [C09]
+//@   requires len(f) >= 1
+//@   ensures result == f[0].tag
+
+// ---- field_map.go: typed setters, group setter, copy ------------------------------------------
+//@ func (m *FieldMap) SetInt [C10]
+//@   requires fmwf(m)
+//@   ensures @set has(m.tagLookup, tag) && m.tagLookup[tag][0].tag == tag && canonint(m.tagLookup[tag][0].value) && intval(m.tagLookup[tag][0].value) == value
+//@   ensures @bytes tvwf(m.tagLookup[tag][0].bytes, tag, m.tagLookup[tag][0].value, len(m.tagLookup[tag][0].bytes) - len(m.tagLookup[tag][0].value) - 2)
+//@   ensures @others otherssame(m, tag)
+//@   ensures @order fmorder(m)
+
+//@ func (m *FieldMap) SetString [C10]
+//@   requires fmwf(m)
+//@   ensures @set has(m.tagLookup, tag) && m.tagLookup[tag][0].tag == tag && len(m.tagLookup[tag][0].value) == len(value) && (forall i :: 0 <= i && i < len(value) ==> m.tagLookup[tag][0].value[i] == value[i])
+//@   ensures @bytes tvwf(m.tagLookup[tag][0].bytes, tag, m.tagLookup[tag][0].value, len(m.tagLookup[tag][0].bytes) - len(m.tagLookup[tag][0].value) - 2)
+//@   ensures @others otherssame(m, tag)
+//@   ensures @order fmorder(m)
+
+//@ func (m *FieldMap) SetBool [C10]
+//@   requires fmwf(m)
+//@   ensures @set has(m.tagLookup, tag) && m.tagLookup[tag][0].tag == tag && len(m.tagLookup[tag][0].value) == 1 && m.tagLookup[tag][0].value[0] == (value ? 89 : 78)
+//@   ensures @others otherssame(m, tag)
+//@   ensures @order fmorder(m)
+
+//@ func (m *FieldMap) SetField [C10]
+//@   inline
+//@   requires fmwf(m) && field != nil
+//@   ensures @set has(m.tagLookup, tag) && m.tagLookup[tag][0].tag == tag
+//@   modifies *
+
+//@ func (m *FieldMap) Set [C10]
+//@   requires fmwf(m) && field != nil
+//@   modifies *
+
+//@ func (m *FieldMap) SetGroup [C10,C13]
+//@   requires fmwf(m) && field != nil
+//@   modifies *
+
+//@ func (m *FieldMap) CopyInto [C10]
+//@   typedheap
+//@   requires fmwf(m) && to != nil && to != m
+//@   ensures @lookup to.tagLookup != nil && fresh(to.tagLookup)
+//@   ensures @samekeys forall t Tag :: has(to.tagLookup, t) <==> has(m.tagLookup, t)
+//@   ensures @clones forall t Tag :: has(m.tagLookup, t) ==> len(to.tagLookup[t]) == 1 && to.tagLookup[t][0].tag == m.tagLookup[t][0].tag && to.tagLookup[t][0].value == m.tagLookup[t][0].value && to.tagLookup[t][0].bytes == m.tagLookup[t][0].bytes
+//@   ensures @tags len(to.tags) == len(m.tags) && (forall i :: 0 <= i && i < len(m.tags) ==> to.tags[i] == m.tags[i]) && fresh(to.tags)
+//@   ensures @cmp to.compare == m.compare
+//@   ensures @source m.tagLookup == old(m.tagLookup) && m.tags == old(m.tags) && (forall t Tag :: (has(m.tagLookup, t) <==> old(has(m.tagLookup, t))) && m.tagLookup[t] == old(m.tagLookup[t]))
+//@   loop 1 invariant @keys forall k Tag :: has(to.tagLookup, k) <==> (seen(k) && has(m.tagLookup, k))
+//@   loop 1 invariant @vals forall k Tag :: seen(k) && has(m.tagLookup, k) ==> len(to.tagLookup[k]) == 1 && to.tagLookup[k][0].tag == m.tagLookup[k][0].tag && to.tagLookup[k][0].value == m.tagLookup[k][0].value && to.tagLookup[k][0].bytes == m.tagLookup[k][0].bytes
+//@   loop 1 invariant @stable to.tagLookup != nil && to.tagLookup != m.tagLookup && fresh(to.tagLookup) && m.tagLookup == old(m.tagLookup) && m.tags == old(m.tags) && fmvals(m)
+//@   loop 1 invariant @src forall t Tag :: (has(m.tagLookup, t) <==> old(has(m.tagLookup, t))) && m.tagLookup[t] == old(m.tagLookup[t])
